@@ -7,13 +7,13 @@ CONSTANTS
   P = 2
   W = 3
   Strict = FALSE
+  StrictHeal = FALSE
   PortOps <- AllOps
   OpPorts <- AllOpPorts
   Fresh <- AnyFresh
   MaxChan = 3
   D = 60
 INIT Init
-NEXT Next
-ACTION_CONSTRAINT DownAtomic
+NEXT SimNext
 INVARIANT Export
 CHECK_DEADLOCK FALSE
